@@ -159,11 +159,11 @@ class Validated:
             return False
         # the indexed list holds, in request order, `<data>.get(<i-th metric id>)` (None values left out)
         lst = next(iter(bases.values()))
-        if not (isinstance(lst, ast.ListComp) and len(lst.generators) == 1 and isinstance(lst.generators[0].iter, ast.Name)
-                and lst.generators[0].iter.id in self.params):
+        roots: list[ast.AST] = []
+        el = elem_of(lst, roots, keep_order=True)
+        if el is None or len(roots) != 1 or not (isinstance(roots[0], ast.Name) and roots[0].id in self.params):
             return False
-        self.metric_param = lst.generators[0].iter.id
-        el = elem_of(lst)
+        self.metric_param = roots[0].id
         if not (isinstance(el, ast.Call) and isinstance(el.func, ast.Attribute) and el.func.attr == "get"
                 and len(el.args) == 1 and not el.keywords and is_name(el.args[0], f"<elem of {self.metric_param}>")):
             return False
@@ -894,6 +894,12 @@ def structural_controls(prog: Program) -> list[tuple[str, str, str, str, str]]: 
                        and isinstance(k.value, int) and not isinstance(k.value, bool))
         if zeros:
             add(CONTROLS[8][0], MC, [(zeros[0][2], "1")])
+        else:                                           # the guard is written `if not <list>:`
+            empties = sorted((i.lineno, i.col_offset, i.test) for f in scope for i in ast.walk(f) if isinstance(i, ast.If)
+                             and isinstance(i.body[-1], (ast.Continue, ast.Return)) and isinstance(i.test, ast.UnaryOp)
+                             and isinstance(i.test.op, ast.Not) and isinstance(i.test.operand, ast.Name))
+            if empties:
+                add(CONTROLS[8][0], MC, [(empties[0][2], f"len({seg(msrc, empties[0][2].operand)}) == 1")])
     # 10. the group's pair is not appended to the returned list (the loop that fetches the group's data,
     #     in whichever method of the manager it lives)
     apps = [st for m in gb.methods.values() for lp in ast.walk(m.node) if isinstance(lp, ast.For)
